@@ -9,7 +9,7 @@
    triangulation the oracle returns.  Results are compared up to equality of
    rational numbers ([oqeq]/[req]); binary64 rounding is not modelled. *)
 From Coq Require Import ZArith NArith QArith List Bool Permutation.
-From Verif Require Import Model.C05 Proofs.C05.
+From Verif Require Import Model.C05 Proofs.C05 Proofs.C05_load.
 Import ListNotations.
 Open Scope Q_scope.
 
@@ -297,3 +297,111 @@ Theorem C05_geometric_rescale_invariant_documented_offset :
             (route_scalar tri (pxdelta expo) L S v evs).
 Proof. exact geometric_rescale_invariant_pxdelta. Qed.
 Print Assumptions C05_geometric_rescale_invariant_documented_offset.
+
+(* ---- the laws for the per-event (array) route ---------------------------- *)
+Theorem C05_proportional_to_flow_rate_array :
+  forall (tri : list pt -> list triangle) (delta : feat -> Q -> Q -> Q)
+         (L : lut) (S : setup) (vs : list Q) (k : Q) (evs : list event)
+         (r : list (option Q)),
+    lut_ok L -> setup_ok S ->
+    route_array tri delta L S vs evs = Some r ->
+    exists r', route_array tri delta L (with_flow S k) vs evs = Some r' /\
+               Forall2 oqeq r' (map (omul k) r).
+Proof. exact prop_flow_rate_array. Qed.
+Print Assumptions C05_proportional_to_flow_rate_array.
+
+Theorem C05_geometric_rescale_invariant_array :
+  forall (tri : list pt -> list triangle) (delta : feat -> Q -> Q -> Q)
+         (L : lut) (S : setup) (vs : list Q) (lam : Q) (evs : list event)
+         (r : list (option Q)),
+    lut_ok L -> setup_ok S -> 0 < lam -> delta_rescale delta lam ->
+    route_array tri delta L S vs evs = Some r ->
+    exists r', route_array tri delta L (rescale_setup S lam) vs
+                           (map (rescale_event (l_feat L) lam) evs) = Some r' /\
+               Forall2 oqeq r' r.
+Proof. exact geometric_rescale_invariant_array. Qed.
+Print Assumptions C05_geometric_rescale_invariant_array.
+
+Theorem C05_geometric_rescale_invariant_array_documented_offset :
+  forall (tri : list pt -> list triangle) (expo : Q -> Q)
+         (L : lut) (S : setup) (vs : list Q) (lam : Q) (evs : list event)
+         (r : list (option Q)),
+    (forall a b, a == b -> expo a == expo b) ->
+    lut_ok L -> setup_ok S -> 0 < lam ->
+    route_array tri (pxdelta expo) L S vs evs = Some r ->
+    exists r', route_array tri (pxdelta expo) L (rescale_setup S lam) vs
+                           (map (rescale_event (l_feat L) lam) evs) = Some r' /\
+               Forall2 oqeq r' r.
+Proof. exact geometric_rescale_invariant_array_pxdelta. Qed.
+Print Assumptions C05_geometric_rescale_invariant_array_documented_offset.
+
+(* ---- load.py: files, EXTERNAL_LUTS, arrays in memory --------------------- *)
+(* Any sequence of get_emodulus calls and register_lut calls leaves the files,
+   the built-in tables and every array that existed before (the caller's
+   (array, meta) tables) unchanged; registry entries are only added, never
+   changed.  (get_emodulus scales and normalises IN PLACE, but only the array
+   load_lut allocated for that call.) *)
+Theorem C05_tables_not_modified :
+  forall (tri : list pt -> list triangle) (delta : feat -> Q -> Q -> Q)
+         (eta : Q -> Q) (ops : list op) (w : world),
+    pres w (fst (run_ops tri delta eta w ops)).
+Proof. exact run_ops_pres. Qed.
+Print Assumptions C05_tables_not_modified.
+
+(* get_emodulus calls alone do not touch the registry at all *)
+Theorem C05_calls_leave_registry :
+  forall (tri : list pt -> list triangle) (delta : feat -> Q -> Q -> Q)
+         (eta : Q -> Q) (ops : list op),
+    only_calls ops = true ->
+    forall w, agree w (fst (run_ops tri delta eta w ops)).
+Proof. exact run_calls_agree. Qed.
+Print Assumptions C05_calls_leave_registry.
+
+(* a registered / built-in / path name keeps loading the same table *)
+Theorem C05_registered_lut_stable :
+  forall (w w' : world) (x p : name),
+    pres w w' -> get_lut_path w x = Ok p ->
+    loaded w' (DName x) = loaded w (DName x).
+Proof. exact loaded_name_stable. Qed.
+Print Assumptions C05_registered_lut_stable.
+
+(* the value of a call does not depend on earlier calls / registrations *)
+Theorem C05_call_after_history :
+  forall (tri : list pt -> list triangle) (delta : feat -> Q -> Q -> Q)
+         (eta : Q -> Q) (w : world) (ops : list op) (d : lutdata)
+         (S : setup) (m : medium) (evs : list event),
+    data_valid w d ->
+    snd (get_emodulus_w tri delta eta (fst (run_ops tri delta eta w ops)) d S m evs)
+    = snd (get_emodulus_w tri delta eta w d S m evs).
+Proof. exact call_after_history. Qed.
+Print Assumptions C05_call_after_history.
+
+Theorem C05_call_after_calls :
+  forall (tri : list pt -> list triangle) (delta : feat -> Q -> Q -> Q)
+         (eta : Q -> Q) (w : world) (ops : list op) (d : lutdata)
+         (S : setup) (m : medium) (evs : list event),
+    only_calls ops = true ->
+    match d with DTuple a _ => (a < w_next w)%N | DName _ => True end ->
+    snd (get_emodulus_w tri delta eta (fst (run_ops tri delta eta w ops)) d S m evs)
+    = snd (get_emodulus_w tri delta eta w d S m evs).
+Proof. exact call_after_calls. Qed.
+Print Assumptions C05_call_after_calls.
+
+(* the result of a call with memory effects is the pure get_emodulus of the
+   loaded table (column selection by feature name included) *)
+Theorem C05_call_result_is_pure :
+  forall (tri : list pt -> list triangle) (delta : feat -> Q -> Q -> Q)
+         (eta : Q -> Q) (w : world) (d : lutdata) (S : setup) (m : medium)
+         (evs : list event),
+    snd (get_emodulus_w tri delta eta w d S m evs)
+    = pure_result tri delta eta (loaded w d) S m evs.
+Proof. exact get_emodulus_w_result. Qed.
+Print Assumptions C05_call_result_is_pure.
+
+Theorem C05_register_then_resolve :
+  forall (w : world) (p i : name) (w' : world),
+    register_lut w p (Some i) = (w', Ok tt) ->
+    zlookup i (w_files w) = None ->
+    get_lut_path w' i = Ok p.
+Proof. exact register_then_resolve. Qed.
+Print Assumptions C05_register_then_resolve.
